@@ -51,7 +51,7 @@ type scriptC struct {
 	Tasks  int    `json:"tasks"`
 	Order  int    `json:"order"`  // 0: smallest pending message first, 1: largest first
 	StopAt int    `json:"stopat"` // external stop after this many handled messages of session 1 (-1: never)
-	Fault  string `json:"fault"`  // chunk-<kind>@<startNo> | add-err@<no> | hold-add@<no> | anc-nil | hashbyno-err | hashes-<short|silent|err>@<prevNo>
+	Fault  string `json:"fault"`  // chunk-<kind>@<startNo> | add-err@<no> | hold-add@<no> | anc-nil | hashbyno-err | hashes-<short|silent|err>@<prevNo> | anc-dup | chunk-dup@<startNo>
 	Extend int    `json:"extend"` // blocks added to the remote chain before the second session
 }
 
@@ -206,8 +206,42 @@ func (e *e2e) take() (outMsg, bool) {
 }
 
 // handle plays p2p / chain service / actor mailbox for one outgoing message.
+// deliver hands m to the syncer's message handler on a goroutine of its own and waits for the
+// handler to return. The handler must never block for ever (the syncer is an actor: a handler that
+// does not return stops all further messages, stop requests included): if it is still inside the
+// call while every syncer goroutine is parked in a channel operation, that is reported.
+func (e *e2e) deliver(m interface{}) {
+	done := make(chan struct{})
+	go func() {
+		defer close(done)
+		e.sy.VerifC17Receive(m)
+	}()
+	stable := 0
+	for i := 0; ; i++ {
+		select {
+		case <-done:
+			return
+		default:
+		}
+		if i < 200 {
+			runtime.Gosched()
+			continue
+		}
+		if parked() {
+			stable++
+		} else {
+			stable = 0
+		}
+		if stable >= 20 {
+			e.fail("C-handler-blocked", fmt.Sprintf("the syncer's message handler does not return from %T: it is blocked in a channel operation while every other syncer goroutine is parked too", m))
+			return
+		}
+		time.Sleep(200 * time.Microsecond)
+	}
+}
+
 func (e *e2e) handle(o outMsg) {
-	rcv := e.sy.VerifC17Receive
+	rcv := e.deliver
 	switch m := o.m.(type) {
 	case *message.FinderResult:
 		if m.Seq == e.seq && m.Ancestor != nil && m.Err == nil {
@@ -227,6 +261,16 @@ func (e *e2e) handle(o outMsg) {
 			anc = nil
 		}
 		rcv(&message.GetSyncAncestorRsp{Seq: m.Seq, Ancestor: anc})
+		if e.s.Fault == "anc-dup" && !e.faultUsed && e.sig == "" {
+			// the peer answers the same request a second and a third time (the light-scan channel is
+			// 1-buffered in this part, see RequestToFutureResult: the second answer fills the buffer,
+			// the third finds nobody receiving)
+			e.faultUsed = true
+			rcv(&message.GetSyncAncestorRsp{Seq: m.Seq, Ancestor: anc})
+			if e.sig == "" {
+				rcv(&message.GetSyncAncestorRsp{Seq: m.Seq, Ancestor: anc})
+			}
+		}
 	case *message.GetHashByNo:
 		h := e.remote.hashAt(m.BlockNo)
 		inject := e.s.Fault == "hashbyno-err" && !e.faultUsed
@@ -283,6 +327,9 @@ func (e *e2e) handle(o outMsg) {
 			}
 		}
 		rcv(rsp)
+		if rsp.Err == nil && len(rsp.Blocks) > 0 && e.fault("chunk-dup", rsp.Blocks[0].GetHeader().GetBlockNo()) && e.sig == "" {
+			rcv(&message.GetBlockChunksRsp{Seq: m.Seq, ToWhom: m.ToWhom, Blocks: blocks})
+		}
 	case *message.AddBlock:
 		if m.Block == nil {
 			e.fail("harness", "AddBlock without block")
@@ -597,6 +644,17 @@ func scriptsC(tier string) []scriptC {
 		}
 	}
 	ss = append(ss, scriptC{Name: "fault", Mode: 1, Local: 5, Fork: 2, Remote: 9, Peers: 2, Tasks: 2, StopAt: -1, Fault: "hashbyno-err"})
+	// a peer that answers a request twice
+	// (ancestor and block-chunk answers only: these two handlers are written to drop what nobody waits
+	// for. A second GetHashesRsp for one request is not in the alphabet: p2p's BlockHashesReceiver
+	// forwards exactly one answer per request and HashFetcher.GetHahsesRsp relies on that.)
+	for _, fl := range []string{"anc-dup", "chunk-dup@1", "chunk-dup@3", "chunk-dup@5"} {
+		for _, mode := range []int{0, 1} {
+			for order := 0; order < 2; order++ {
+				ss = append(ss, scriptC{Name: "fault", Mode: mode, Local: 5, Fork: 2, Remote: 9, Peers: 3, Tasks: 2, Order: order, StopAt: -1, Fault: fl, Extend: 2})
+			}
+		}
+	}
 	// the hash fetcher's peer: silent, one hash short without an error indication (then silent), error
 	// answer - at the first and at a later request (requests of 3 hashes start after block 0, 3, 6, 9)
 	for _, kind := range []string{"hashes-silent", "hashes-short", "hashes-err"} {
